@@ -30,6 +30,9 @@ type StructCase struct {
 	// Twice (entry VStruct only): every rule set is registered twice for its target - first a
 	// decoy set, then the real one, which replaces it (SetRule stores the set given last)
 	Twice bool `json:"twice,omitempty"`
+	// NoModel: the source is something the entry point turns down (a typed nil pointer): only the
+	// metamorphic oracles apply
+	NoModel bool `json:"nomodel,omitempty"`
 	// RMSlot: the unscoped rule set is handed over in a rule-map OBJECT that is kept between the
 	// calls of one history and refilled in place (callers reuse one valid.RM and edit it between calls)
 	RMSlot string `json:"rmslot,omitempty"`
